@@ -177,6 +177,9 @@ fn has_unresolved(d: &RDoc) -> bool {
 }
 
 fn check_doc(d: &RDoc, how: usize) -> (Option<(String, String)>, bool) {
+    if how >= 2 {
+        return check_permuted(d, how);
+    }
     let Ok(Some(DecodedMap::Index(smi))) = guarded(|| construct_doc(d, how)) else { return (None, false) };
     let tag = if how == 0 { "constructed" } else { "decoded" };
     let r = guarded(|| -> Option<(String, String)> {
@@ -273,6 +276,43 @@ fn check_doc(d: &RDoc, how: usize) -> (Option<(String, String)>, bool) {
     }
 }
 
+/// The same index written with its section list reversed (how = 2) or rotated (how = 3). The format
+/// asks for sections in offset order, so what a decoder makes of such a document is its own
+/// business (sort, keep, refuse) and nothing is compared with the model; but if it hands out a map,
+/// that map's own two views must agree: where the index finds a token, the flattened map finds the
+/// same original location.
+fn check_permuted(d: &RDoc, how: usize) -> (Option<(String, String)>, bool) {
+    let RDoc::Index(ix) = d else { return (None, false) };
+    if ix.sections.len() < 2 {
+        return (None, false);
+    }
+    let mut p = ix.clone();
+    if how == 2 {
+        p.sections.reverse();
+    } else {
+        p.sections.rotate_left(1);
+    }
+    let text = rv3_write_doc(&RDoc::Index(p));
+    let r = guarded(|| -> Option<(String, String)> {
+        let Ok(DecodedMap::Index(smi)) = sourcemap::decode_slice(text.as_bytes()) else { return None };
+        let Ok(f) = smi.flatten() else { return None };
+        for q in queries(d) {
+            let want = rlookup_doc(d, q);
+            let Some(g) = smi.lookup_token(q.0, q.1).map(|t| hit_of(&t)) else { continue };
+            let h = f.lookup_token(q.0, q.1).map(|t| hit_of(&t));
+            let same = h.as_ref() == Some(&g) || (want.contains(&g) && h.as_ref().is_some_and(|h| want.contains(h)));
+            if !same {
+                return Some(("agreement/flattened-map-differs/sections-listed-out-of-order".into(), format!("document lists its sections out of offset order; decoded index.lookup_token{q:?} = {g:?} but its flatten().lookup_token = {h:?}\ndocument: {text}")));
+            }
+        }
+        None
+    });
+    match r {
+        Ok(x) => (x, true),
+        Err(p) => (Some((format!("panic/{}", panic_class(&p)), format!("panicked on a document with sections out of order: {p}"))), true),
+    }
+}
+
 fn make_doc(offs: &[usize], picks: &[usize], special: Option<(usize, usize)>) -> RDoc {
     let p = pool();
     let inner = RDoc::Index(RIndex {
@@ -327,7 +367,7 @@ pub fn run(run: &mut Run) -> Finish {
                 l.evals += 1;
                 return;
             }
-            for how in 0..2 {
+            for how in 0..4 {
                 let (v, ran) = check_doc(&doc, how);
                 if let Some((sig, what)) = v {
                     l.violation_sub(idx, how as u64, Viol::new(format!("C08/{sig}"), format!("{what}\nindex: {}", doc_brief(&doc)), json!({"how": how, "doc": serde_json::to_value(&doc).unwrap()})));
@@ -344,7 +384,7 @@ pub fn run(run: &mut Run) -> Finish {
     }
     Finish {
         level: "exploration",
-        rule: "E1: every index map of the stated space that satisfies the quantifier's well-formedness (strictly increasing offsets, each section's translated tokens before the next offset), built both through SourceMapIndex::new and by decoding the independent writer's document. Oracles: flatten() equals RFlatten (line offset always, column offset on the section's first line only; source name, name, original position, range flag; ties as multiset; contents per source name = first seen; ignore-list membership; recursion into nested indexes; Err for an unresolved section); index.lookup_token(q) equals RIndexLookup (section with the greatest offset <= q, query made section-relative; any member of a tie accepted) on a grid around every offset; whenever the index finds a token the flattened map reports the same original location. Distinct by construction; non-trivial = well-formed index that was built; class = (sections, pool assignment, special slot).".into(),
+        rule: "E1: every index map of the stated space that satisfies the quantifier's well-formedness (strictly increasing offsets, each section's translated tokens before the next offset), built both through SourceMapIndex::new and by decoding the independent writer's document (and, for the agreement clause only, by decoding that document with its section list reversed and rotated). Oracles: flatten() equals RFlatten (line offset always, column offset on the section's first line only; source name, name, original position, range flag; ties as multiset; contents per source name = first seen; ignore-list membership; recursion into nested indexes; Err for an unresolved section); index.lookup_token(q) equals RIndexLookup (section with the greatest offset <= q, query made section-relative; any member of a tie accepted) on a grid around every offset; whenever the index finds a token the flattened map reports the same original location. Distinct by construction; non-trivial = well-formed index that was built; class = (sections, pool assignment, special slot).".into(),
         assumptions: vec!["tokens sharing one generated position: any of them is accepted as the lookup answer (unstable sort in flatten's builder)".into(), "sources of the flattened map are compared by name; their order is not asserted".into()],
         coverage_extra: json!({"max_sections": maxn, "pool": np}),
     }
